@@ -126,6 +126,60 @@ def parseCfg (s : String) : Option Cfg :=
   | ['g', g, 'j', j] => some { revive := g == '1', joinFirst := j == '1' }
   | _ => none
 
+/-! editor tier: `persist editor g<G>j<J> <init> <tok,…>` with tokens `LK` learn (syllables known to the
+system dictionary), `lK` learn (known only if the user dictionary has the phrase), `UK` unlearn,
+`k` a key event, and `c d w x` as above; observations `<ret>:<writer>:<keys in the file>:<temp>`
+(values are chosen by the frequency estimator and not compared). -/
+
+def showKeysOf (c : Content) : String :=
+  let ks := (smallKeys.filter fun k => (c k).isSome).map toString
+  if ks.isEmpty then "e" else "+".intercalate ks
+
+inductive EdTok where
+  | learn (k : Nat) (sys : Bool) | unlearn (k : Nat) | key | env (a : Act)
+
+def parseEdTok (t : String) : Option EdTok :=
+  let r := String.ofList (t.toList.drop 1)
+  match t.toList.head? with
+  | some 'L' => r.toNat?.map fun k => .learn k true
+  | some 'l' => r.toNat?.map fun k => .learn k false
+  | some 'U' => r.toNat?.map .unlearn
+  | some 'k' => some .key
+  | some 'c' => some (.env .close)
+  | some 'd' => some (.env .d)
+  | some 'w' => some (.env .w)
+  | some 'x' => some (.env .crash)
+  | _ => none
+
+def showEdObs (ret : String) (w : World) : String :=
+  let f := match w.fs .path with
+    | none => "?"
+    | some .partial_ => "!"
+    | some (.complete c) => showKeysOf c
+  let t := match w.fs .tmp with
+    | none => "-"
+    | some .partial_ => "p"
+    | some (.complete c) => "c=" ++ showKeysOf c
+  if w.crashed then ":".intercalate ["X", f, t] else
+  let h := match w.writer with
+    | none => "-"
+    | some wr => if wr.pc == .finished then "-" else pcName wr.pc
+  ":".intercalate [ret, h, f, t]
+
+def runEdObs (cfg : Cfg) : EdWorld → List EdTok → List String
+  | _, [] => []
+  | e, t :: ts =>
+    let (a, ret) : EdAct × String := match t with
+      | .learn k sys =>
+        let known := sys || (e.w.buf.live k).isSome
+        (.learn k 1 known, if known then "k" else if (e.w.buf.add cfg k 1).2 then "k" else "e")
+      | .unlearn k => (.unlearn k, "k")
+      | .key => (.key, "-")
+      | .env a => (.env a, "-")
+    match edStep cfg e a with
+    | some e' => showEdObs ret e'.w :: runEdObs cfg e' ts
+    | none => ["DISABLED"]
+
 def persistExpected (fn : String) (args : List String) : Option String :=
   match fn, args with
   | "run", [cfg, ini, toks] => do
@@ -133,6 +187,11 @@ def persistExpected (fn : String) (args : List String) : Option String :=
     let (c0, big) ← parseInit ini
     let acts ← (toks.splitOn ",").mapM parseTok
     pure (unwords (runObs cfg big (init c0 none) acts))
+  | "editor", [cfg, ini, toks] => do
+    let cfg ← parseCfg cfg
+    let (c0, _) ← parseInit ini
+    let acts ← (toks.splitOn ",").mapM parseEdTok
+    pure (unwords (runEdObs cfg { w := init c0 none, dirtyLevel := 0 } acts))
   | _, _ => none
 
 end Chewing.Driver
